@@ -1,7 +1,6 @@
 package chainx
 
 import (
-	"bytes"
 	"encoding/json"
 	"fmt"
 	"math/rand"
@@ -9,7 +8,6 @@ import (
 	"path/filepath"
 	"runtime"
 	"sort"
-	"strconv"
 	"sync"
 	"sync/atomic"
 	"testing"
@@ -20,14 +18,7 @@ import (
 	"verifharness/hx"
 )
 
-func goid() int64 {
-	var buf [64]byte
-	n := runtime.Stack(buf[:], false)
-	// "goroutine 123 [running]:"
-	f := bytes.Fields(buf[:n])
-	id, _ := strconv.ParseInt(string(f[1]), 10, 64)
-	return id
-}
+func goid() int64 { return Goid() }
 
 // callOrder assigns every Manager call the sequence number of its entry into the critical
 // section (chain.VerifHook fires right after m.mu is acquired, on the calling goroutine).
@@ -194,7 +185,8 @@ func TestConcurrent(t *testing.T) {
 				}
 			}()
 		}
-		// submitter
+		// two submitters (two peers delivering at once): the same schedule, batched differently, the
+		// second one lagging and occasionally repeating earlier blocks
 		var sched []int
 		for id := 2; id <= len(tr.Nodes); id++ {
 			sched = append(sched, id)
@@ -204,39 +196,55 @@ func TestConcurrent(t *testing.T) {
 				sched[i], sched[i+1] = sched[i+1], sched[i]
 			}
 		}
-		for i := 0; i < len(sched); {
-			k := 1 + rng.Intn(3)
-			if i+k > len(sched) {
-				k = len(sched) - i
-			}
-			batch := append([]int{}, sched[i:i+k]...)
-			i += k
-			var blocks []types.Block
-			for _, id := range batch {
-				blocks = append(blocks, tr.Node(id).Block)
-			}
-			slot := order.begin()
-			cls, ops, detail := n.Submit(blocks, nil, 0)
-			e := emptyEv("Submit")
-			e.Batch = batch
-			evs := []ev{e}
-			for _, op := range ops {
-				o := emptyEv(op.Op)
-				if op.Op == "Apply" || op.Op == "Revert" {
-					o.B = ids[op.ID]
+		n.Store.perG = map[int64][]StoreOp{}
+		var swg sync.WaitGroup
+		for si := 0; si < 2; si++ {
+			swg.Add(1)
+			go func(si int) {
+				defer swg.Done()
+				srng := rand.New(rand.NewSource(seed*100 + int64(si)))
+				for i := 0; i < len(sched); {
+					k := 1 + srng.Intn(3)
+					if i+k > len(sched) {
+						k = len(sched) - i
+					}
+					batch := append([]int{}, sched[i:i+k]...)
+					i += k
+					if si == 1 && srng.Float64() < 0.15 {
+						batch = append(batch, sched[srng.Intn(i)])
+					}
+					var blocks []types.Block
+					for _, id := range batch {
+						blocks = append(blocks, tr.Node(id).Block)
+					}
+					slot := order.begin()
+					cls, ops, detail := n.SubmitConc(blocks)
+					e := emptyEv("Submit")
+					e.Batch = batch
+					evs := []ev{e}
+					for _, op := range ops {
+						o := emptyEv(op.Op)
+						if op.Op == "Apply" || op.Op == "Revert" {
+							o.B = ids[op.ID]
+						}
+						evs = append(evs, o)
+					}
+					d := emptyEv("DoneLite")
+					d.Ret = cls
+					evs = append(evs, d)
+					if cls == "panic" {
+						mismatch("driver:c01:panic", fmt.Sprintf("AddBlocks(%v) panicked: %s", batch, detail))
+					}
+					mu.Lock()
+					calls = append(calls, callRec{*slot, evs})
+					mu.Unlock()
+					if si == 1 {
+						runtime.Gosched()
+					}
 				}
-				evs = append(evs, o)
-			}
-			d := emptyEv("DoneLite")
-			d.Ret = cls
-			evs = append(evs, d)
-			if cls == "panic" {
-				mismatch("driver:c01:panic", fmt.Sprintf("AddBlocks(%v) panicked: %s", batch, detail))
-			}
-			mu.Lock()
-			calls = append(calls, callRec{*slot, evs})
-			mu.Unlock()
+			}(si)
 		}
+		swg.Wait()
 		close(done)
 		wg.Wait()
 		sort.Slice(calls, func(i, j int) bool { return calls[i].seq < calls[j].seq })
